@@ -39,7 +39,7 @@ NEEDS = {
     "C20a": "an EXTENDS cycle plus a tail type extending a member of it, a member name shared by tail and chain, and a "
             "references/highlight/rename on that name",
     "C01c": "main() reads stdin unbuffered (FileIO): a body delivered in two pieces or larger than the pipe buffer is "
-            "read short (needs real pipes with delivery timing; fortls.main() is outside the simulated boundary)",
+            "read short (the stream wiring is done in fortls.main(), not in LangServer)",
     "C01d": "a handler failure whose exception has an empty message (str(e) == ''): the error path itself raises",
     "C02c": "a whole-document change with text T, in-line edits, then another change with the same text T "
             "(memoised line split shares its list with the document)",
